@@ -1,7 +1,7 @@
 INIT Init
 NEXT Next
 CONSTANTS
-  FactorNames <- N_tiny
+  FactorNames = {"m", "km", "s", "h"}
   Powers <- P_pm2
   MaxFactors = 2
   Mags <- M_one
